@@ -197,6 +197,27 @@ func (w *world) snapshot() *Snap {
 		}
 		sn.Facts["O|"+x] = fmt.Sprintf("FRepoOf %s %s", w.nameOf(x), val)
 	}
+	// the identifier maps themselves
+	for _, x := range us {
+		val := "None"
+		if v, err := datastore.VersionFromUUID(dvid.UUID(x)); err == nil {
+			val = fmt.Sprintf("(Some %d)", v)
+		}
+		sn.Facts["U|"+x] = fmt.Sprintf("FU2V %s %s", w.nameOf(x), val)
+	}
+	maxV := 0
+	for v := range w.uuidOf {
+		if v > maxV {
+			maxV = v
+		}
+	}
+	for v := 1; v <= maxV+1; v++ {
+		val := "None"
+		if x, err := datastore.UUIDFromVersion(dvid.VersionID(v)); err == nil {
+			val = "(Some " + w.nameOf(string(x)) + ")"
+		}
+		sn.Facts["V|"+strconv.Itoa(v)] = fmt.Sprintf("FV2U %d %s", v, val)
+	}
 	// branch heads and branch ancestries
 	for _, k := range keys {
 		if !safeInURL(k) || strings.Contains(k, ":") {
@@ -253,6 +274,10 @@ func delFact(w *world, key string) string {
 		return fmt.Sprintf("FNode %s %s 0 \"\" false [] []", w.nameOf(parts[1]), w.nameOf(parts[2]))
 	case "O":
 		return fmt.Sprintf("FRepoOf %s None", w.nameOf(parts[1]))
+	case "U":
+		return fmt.Sprintf("FU2V %s None", w.nameOf(parts[1]))
+	case "V":
+		return fmt.Sprintf("FV2U %s None", parts[1])
 	case "A":
 		i := strings.Index(parts[1], ":")
 		return fmt.Sprintf("FAddr (cat %s %s) None", w.nameOf(parts[1][:i]), coqStr(parts[1][i:]))
